@@ -10,6 +10,7 @@ mod emit;
 mod gen;
 mod interp;
 mod ir;
+mod known;
 mod reduce;
 mod sem;
 mod shape;
